@@ -566,6 +566,8 @@ func (r *RegisteredDecoys) TrackIfNotExists(d *DecoyRegistration) (bool, error) 
 	defer r.m.Unlock()
 
 	if reg := r.registrationExists(d); reg != nil {
+		// count the duplicate here, in the same critical section as the check
+		reg.regCount++
 		return true, nil
 	}
 
@@ -820,7 +822,6 @@ func (r *RegisteredDecoys) removeRegistration(index string) *regExpireLogMsg {
 	if !ok {
 		return nil
 	}
-
 
 	stats := &regExpireLogMsg{
 		Valid:          expiredRegObj.Valid,
